@@ -643,7 +643,8 @@ def main(tier, replay):
         "router_configurations": "0: disclosure + history on hist.topic/histp. + meta kill/modify, realm2 strict/local-auth/authorizer(deny,fail,mutate)/MetaStrict, bare template; "
                                  "1: disclosure + history (exact/prefix/wildcard) over every topic the streams publish to, MetaStrict, allow-all Authorizer also for local sessions; "
                                  "2: realm1 created from the realm template (disclosure, history, strict URIs, local auth); 3 (thorough): everything optional off. "
-                                 "Each history runs against 2 (quick) / 3 (thorough) of them, corpus against 3",
+                                 "Each history runs against 2 (quick) / 3 (thorough) of them, corpus against 3. Every configuration runs rawsocket servers with RecvLimit 0 (16M) / 512 / 1000 / 65536 "
+                                 "(the limited ones with OutQueueSize 4) and a second websocket server with OutQueueSize 2; the frame streams announce limit+1, 2*limit, 16M-1 in every frame type",
         "liveness_probe": "after every history: publish/event, call/invocation/yield/result, wamp.session.count, fresh attach (every 4th also rawsocket+websocket) by uninvolved sessions",
         "race_tier": race_note,
         "coqchk": coqchk_note,
